@@ -25,7 +25,7 @@ ASSUMPTIONS = ['total rtol 1e-9 (the estimated total is taken from the harness\'
                'loss <= uniform*(1+1e-9); both recomputed by the harness from Counter-built weighted tables',
                'projections are tuples and queries explicit matrices (PublicInference has no fix_measurements step)']
 PLAN = {
-    'quick': dict(cases=320, budget_s=75, case_timeout=300, min_cases=80),
+    'quick': dict(cases=320, budget_s=120, case_timeout=300, min_cases=50),
     'thorough': dict(cases=6000, budget_s=900, case_timeout=600, min_cases=1000),
 }
 
